@@ -45,6 +45,12 @@ theorem rexp_shape_as_modelled :
     ∧ rexpShape.lockPresent = true ∧ rexpShape.unlockDeferred = true ∧ rexpShape.loadAfterLock = true
     ∧ rexpShape.onlyFreshWritten = true ∧ rexpShape.copiesOld = true := by decide
 
+/-- T1: `compileRegexp` answers with the dictionary's entry for the requested pattern or with the expression it has just
+    compiled from it — there is no other way out — and rexp.go keeps no shared state beside the mutex and the dictionary
+    (a second cache, e.g. a "last pattern" memo, is state the model does not have) -/
+theorem rexp_no_other_answer :
+    rexpReturns = ["r, nil", "nil, err", "r, nil"] ∧ rexpPkgVars = ["cacheMutex", "reDict"] := by decide
+
 /-- a wrong insert key (what a careless edit could produce) breaks it: thread 0 asks for "^a",
     then for "^b", and is handed the expression of "^a" -/
 def badKey : Pat → Pat := fun _ => "^b"
